@@ -163,7 +163,12 @@ def run_property(prop: str, tier: str, seed: int) -> int:
     samples = []
     known_seen = 0
     coverage_checked = 0
+    metrics = {}
     for r in results:
+        for mk_, mv_ in r.get("metrics", {}).items():
+            metrics[mk_] = metrics.get(mk_, 0) + mv_
+            if mv_:
+                metrics["shapes_with_" + mk_] = metrics.get("shapes_with_" + mk_, 0) + 1
         st = r.get("stats", {})
         for k in agg:
             agg[k] += st.get(k, 0)
@@ -266,7 +271,7 @@ def run_property(prop: str, tier: str, seed: int) -> int:
         known_finding_instances_seen=known_seen, finding_notes=finding_notes,
         exhaustive=(not truncated and not not_run and not errors),
         solver="z3 %s (python API), QF linear integer arithmetic + Booleans" % _z3v(),
-        harness_errors=len(errors),
+        harness_errors=len(errors), metrics=metrics,
     )
     ev = dict(property_id=prop, tier=tier, seed=seed, level="model_checking", coverage=coverage,
               assumptions=list(getattr(mod, "ASSUMPTIONS", [])) + [
